@@ -576,6 +576,32 @@ func c07RunStreams(out string, c *Curve, seed uint64, tier string) int {
 				}
 			}
 		}
+		// (A'') truncation inside an item that repeats its predecessor (or is the identity): what a decoder left in its
+		// scratch buffer from the previous item then completes the missing bytes to a valid encoding
+		for li, labels := range [][]string{{"G", "G"}, {"O"}, {"G", "O", "O"}, {"2G", "2G", "2G"}} {
+			sl := reflect.MakeSlice(c.c07Type(ty), len(labels), len(labels))
+			for i, lb := range labels {
+				sl.Index(i).Set(g.pt(lb).Elem())
+			}
+			prog := []c07Item{{ty, sl}}
+			for _, raw := range []bool{false, true} {
+				wire := s.encodeProgram(t, prog, raw, 0, 0)
+				var sp []c07Span
+				if s.spans(ty, sl, raw, 0, "", &sp) != len(wire) {
+					continue
+				}
+				ci := li
+				for _, x := range sp {
+					if x.kind != "point" {
+						continue
+					}
+					for _, k := range []int{x.off + 1, x.off + x.n/2, x.off + x.n/2 + 1, x.off + x.n - 1} {
+						ci++
+						s.decodeProgram(t, prog, Ev{"k": "trunc", "at": k}, wire[:k], c07Chunks[ci%len(c07Chunks)], ci%3 != 0, ci, 1)
+					}
+				}
+			}
+		}
 	}
 	total += t.Close()
 
